@@ -29,7 +29,7 @@
 From Coq Require Import List NArith ZArith Bool.
 From ApiFu Require Import Base.Sexp Fut.Plan Fut.Future Fut.ExecAsync Fut.ExecSync Fut.Denote Fut.SubPerm
      Fut.Live Fut.AsyncWrap Fut.AsyncRun Fut.FutSpec Fut.VisibleProofs Fut.SyncMust Fut.FutProofs
-     Fut.BridgeC01 Fut.BridgeProofs Fut.BridgeNulls Fut.BridgeCands Fut.BridgeCompose.
+     Fut.BridgeC01 Fut.BridgeProofs Fut.BridgeNulls Fut.BridgeCands Fut.BridgeCompose Fut.NoPrefill.
 From ApiFu Require ExeA.ArgData ExeA.ArgArgs ExeA.ArgSpec ExeA.ArgModel ExeA.ArgHyps Val.Values.
 Import ListNotations.
 
@@ -274,6 +274,38 @@ Theorem C02_every_schedule_yields_request_response :
             conforms root (r_data r) (r_errors r).
 Proof. exact schedule_yields_request_response. Qed.
 
+(** ** plans without prefilled promises (requested by C15)
+
+    [nopre root]: no promise tag of the plan is prefilled.  [NP s s']: the step from [s] to [s']
+    appends only promises that are numbered consecutively and are NOT done, and adds no entry to
+    [s_chans] (it may take entries out).  [NPclo c]: every callback stored in the closure [c], and
+    every future a continuation of it will ever return, moves the state by such a step.
+    For such a plan, building the root future and every poll ([invoke]) of what was built — to any
+    depth, whatever was fulfilled in between — is an [NP] step: channel entries and done promises
+    come from the idle handler alone. *)
+Theorem C02_no_prefill_build : forall root p s f s',
+  nopre root = true -> exec_sel fixed_flags root p s = (f, s') -> NP s s' /\ NPfut f.
+Proof. exact no_prefill_build. Qed.
+
+Theorem C02_no_prefill_build_field : forall fp p s f s1 f1 s2,
+  nopre_f fp = true -> exec_field fixed_flags fp p s = (f, s1) ->
+  catch_if_nullable (fp_nn fp) f s1 = (f1, s2) -> NP s s2 /\ NPfut f1.
+Proof. exact no_prefill_build_field. Qed.
+
+Theorem C02_no_prefill_poll : forall c s c' ro s',
+  NPclo c -> invoke fixed_flags c s = (c', ro, s') -> NP s s' /\ NPclo c'.
+Proof. exact no_prefill_poll. Qed.
+
+Theorem C02_no_prefill_wait_wrap : forall c, NPclo c -> NPclo (CMap wait_fn c).
+Proof. exact no_prefill_wait_wrap. Qed.
+
+Theorem C02_no_prefill_polls_append_blocked : forall root p s0 c s1,
+  nopre root = true -> exec_sel fixed_flags root p s0 = (Pending c, s1) ->
+  NP s0 s1 /\
+  forall s c' ro s', invoke fixed_flags (CMap wait_fn c) s = (c', ro, s') ->
+    NP s s' /\ match ro with Some _ => True | None => NPclo c' end.
+Proof. exact no_prefill_polls_append_blocked. Qed.
+
 (** ** supporting statements *)
 
 (** [conforms] does not see which resolvers are asynchronous. *)
@@ -378,6 +410,11 @@ Print Assumptions C02_every_schedule_explains_reference_nulls_partial.
 Print Assumptions C02_bridge_candidates.
 Print Assumptions C02_every_schedule_yields_ExecuteRequest_response.
 Print Assumptions C02_every_schedule_yields_request_response.
+Print Assumptions C02_no_prefill_build.
+Print Assumptions C02_no_prefill_build_field.
+Print Assumptions C02_no_prefill_poll.
+Print Assumptions C02_no_prefill_wait_wrap.
+Print Assumptions C02_no_prefill_polls_append_blocked.
 Print Assumptions C02_conforms_tag_blind.
 Print Assumptions C02_visible_nulls_agree.
 Print Assumptions C02_conforms_by_reading.
